@@ -251,7 +251,7 @@ class G:
         same = [y for y in dims if dims[y] == n]
         qs = ["is_empty", "is_universe", "is_bounded", "is_topologically_closed", "contains", "strictly_contains",
               "is_disjoint_from", "equals", "relation_with_con", "bounds_from_above", "bounds_from_below", "maximize", "minimize",
-              "relation_with_gen", "affine_dimension", "relation_with_cg"]
+              "relation_with_gen", "affine_dimension", "relation_with_cg", "frequency"]
         if n > 0: qs += ["constrains"]
         q = r.choice(qs)
         p = "qry %d %s" % (x, q)
@@ -270,7 +270,7 @@ class G:
                 b = -sum(ai * pi for ai, pi in zip(a, pt)) + m * r.randint(-2, 2)
                 return "%s %d %d %s" % (p, m, b, " ".join(map(str, a)))
             return "%s %d %d %s" % (p, r.choice([0, 1, 2, 3]), self.coef(-3, 3), " ".join(map(str, self.vec(n, nz=False))))
-        if q in ("bounds_from_above", "bounds_from_below", "maximize", "minimize"): return "%s %s" % (p, self.expr(n))
+        if q in ("bounds_from_above", "bounds_from_below", "maximize", "minimize", "frequency"): return "%s %s" % (p, self.expr(n))
         if q == "constrains": return "%s %d" % (p, r.randrange(n))
         return p
 
@@ -358,7 +358,9 @@ class Lazy(G):
               "equals %d" % twin, "contains %d" % twin, "strictly_contains %d" % twin, "is_disjoint_from %d" % twin]
         for d in dirs:
             e = "%d 0 %s" % (n, " ".join(map(str, d)))
-            qs += ["bounds_from_above " + e, "bounds_from_below " + e, "maximize " + e, "minimize " + e]
+            qs += ["bounds_from_above " + e, "bounds_from_below " + e, "maximize " + e, "minimize " + e, "frequency " + e]
+        if n > 0:
+            qs.append("relation_with_cg %d %d %s" % (self.r.choice([1, 2, 3]), self.coef(-3, 3), " ".join(map(str, dirs[0]))))
         for i in range(n):
             qs.append("constrains %d" % i)
         qs.append("relation_with_con %s" % self.con(n, "NNC"))
